@@ -1306,7 +1306,14 @@ def add_invariant_checks(cls: ClassT) -> None:
         # We have to distinguish this special case which is used by named
         # tuples and possibly other optimized data structures.
         # In those cases, we have to wrap __new__ instead of __init__.
-        if init_func == object.__init__ and hasattr(cls, "__new__"):
+        #
+        # Every class has a ``__new__`` (at least the one inherited from ``object``). ``object.__new__``
+        # must not be wrapped: it is strict about excess arguments only as long as it has not been overridden,
+        # so wrapping it would break the subclasses which define their own ``__init__`` with arguments.
+        if (
+            init_func == object.__init__
+            and getattr(cls, "__new__") is not object.__new__
+        ):
             new_func = getattr(cls, "__new__")
             setattr(cls, "__new__", _decorate_new_with_invariants(new_func))
         else:
